@@ -26,6 +26,9 @@
   factor meeting the contract); `cholPSD`, `gramSchmidt` are the round-1 instances, kept for reference.
   `designRdmSpec` / `designRdmSpecD`: specification for general design matrices.
   Every `@` of `sim.py` goes through `mmulBy <regenerated summand>` (operand order from the text).
+  Round 4: `SimArgs` / `SimCall` / `runSession` — sessions of calls on the same objects with an explicit
+  state (content of the arguments, arbitrary module state), gated by the leaves `inputWrites`,
+  `moduleState`; `specSession` = the stand-alone calls.
 -/
 import Rsa.Core.Num
 import Rsa.Core.Tri
@@ -263,6 +266,99 @@ def simDataset (p : Params α) (cond : CondInput α) (signals noises : Nat → M
 def makeDatasets (p : Params α) (cond : CondInput α) (signals noises : Nat → Mat α) :
     List (SimDataset α) :=
   (List.range p.nSim).map (simDataset p cond signals noises)
+
+/-! ### reuse sessions (round 4): what survives a call
+
+`make_dataset` is handed *objects* — a model (whose `rdm` array, for a `ModelFixed` built from a
+vector, is the caller's own array), a parameter vector, a condition vector / design matrix,
+covariance matrices — and lives in a module that could keep things between calls.  A *session* is
+a sequence of calls (and of edits the caller makes to its own objects between them) in one
+process.  The state below is the content of those objects plus whatever the module keeps
+(`σ`, arbitrary).  Whether the code has a statement that writes into an argument, or a place to
+keep something between calls, is read off today's source text: leaves `inputWrites`,
+`moduleState` (both counts; see `harness/leaves/C18.py`). -/
+
+/-- content of the objects handed to `make_dataset` -/
+structure SimArgs (α : Type) where
+  /-- `model.predict(theta)` as a condensed vector (content of the model object) -/
+  rdm : List α
+  theta : Option (List α)
+  cond : CondInput α
+  /-- factors of `noise_cov_channel`, `noise_cov_trial`, `signal_cov_channel` -/
+  cholC : Option (Mat α)
+  cholT : Option (Mat α)
+  cholS : Option (Mat α)
+
+/-- the scalars and switches of one call, its random draws and the external routines
+    (orthonormalisation per signal, factorisation of `G`) -/
+structure SimCall (α : Type) where
+  nCond : Nat
+  nCh : Nat
+  nSim : Nat
+  signal : α
+  noise : α
+  exact : Bool
+  same : Bool
+  modelName : String
+  zs : Nat → Mat α
+  noises : Nat → Mat α
+  whiten : Nat → Mat α → Mat α
+  factor : Mat α → Mat α
+
+/-- the stand-alone call: `make_dataset` on objects with content `a` — the second-moment matrix
+    from the model RDM, its factor, one `make_signal` per needed signal, the datasets -/
+def SimCall.value (c : SimCall α) (a : SimArgs α) : List (SimDataset α) :=
+  makeDatasets
+    { nCond := c.nCond, nCh := c.nCh, nSim := c.nSim, signal := c.signal, noise := c.noise,
+      cholC := a.cholC, cholT := a.cholT, same := c.same, modelName := c.modelName,
+      theta := a.theta }
+    a.cond
+    (fun i => makeSignal c.nCond c.nCh c.exact (c.zs i) (c.whiten i)
+      (c.factor (gramOfRdm c.nCond (squareform c.nCond a.rdm))) a.cholS)
+    c.noises
+
+/-- one step of a session: a call, or the caller changing its own objects (writing a new RDM
+    into the model, editing theta, …) -/
+inductive SimStep (α : Type) where
+  | call (c : SimCall α)
+  | edit (f : SimArgs α → SimArgs α)
+
+/-- everything a tree *with* write statements / module state could do: `stale` = the content a
+    call actually computes from (e.g. a memoised second moment of an earlier model), `remember` =
+    how the module state moves on, `scribble` = what the write statements leave in the arguments.
+    All three are arbitrary. -/
+structure Hidden (σ α : Type) where
+  stale : σ → SimArgs α → SimArgs α
+  remember : σ → SimArgs α → σ
+  scribble : SimArgs α → SimArgs α
+
+/-- one call as the code under check performs it: module state is consulted and updated iff the
+    source has a place to keep it (`moduleState ≠ 0`), the arguments are written iff the source
+    has a statement that stores into them (`inputWrites ≠ 0`) -/
+def stepCall {σ : Type} (h : Hidden σ α) (c : SimCall α) (st : σ × SimArgs α) :
+    List (SimDataset α) × (σ × SimArgs α) :=
+  let seen := if Rsa.Gen.C18.moduleState = 0 then st.2 else h.stale st.1 st.2
+  (c.value seen,
+    (if Rsa.Gen.C18.moduleState = 0 then st.1 else h.remember st.1 st.2,
+     if Rsa.Gen.C18.inputWrites = 0 then st.2 else h.scribble st.2))
+
+/-- a session in one process: every step sees what the earlier ones left -/
+def runSession {σ : Type} (h : Hidden σ α) :
+    List (SimStep α) → σ × SimArgs α → List (List (SimDataset α)) × (σ × SimArgs α)
+  | [], st => ([], st)
+  | .call c :: rest, st =>
+    let r := stepCall h c st
+    let t := runSession h rest r.2
+    (r.1 :: t.1, t.2)
+  | .edit f :: rest, st => runSession h rest (st.1, f st.2)
+
+/-- specification: every call stand-alone on the content the *caller* has established so far -/
+def specSession : List (SimStep α) → SimArgs α → List (List (SimDataset α)) × SimArgs α
+  | [], a => ([], a)
+  | .call c :: rest, a =>
+    let t := specSession rest a
+    (c.value a :: t.1, t.2)
+  | .edit f :: rest, a => specSession rest (f a)
 
 /-! ### squared Euclidean RDM by condition (`calc_rdm(ds, 'euclidean', descriptor)`) -/
 
